@@ -1,1 +1,626 @@
-From Ase Require Import Model.Dump.
+(* C07: observationally neutral encoding choices do not change the result.
+   Every theorem compares two encodings that differ in one choice.  Levels: `load` on files
+   (header ++ frames), `assemble` on framed chunks, `process_chunk` (the dispatcher of
+   parse_frame) and the chunk decoders.  Encoders, junk parameters, wf_* predicates:
+   Spec/EncodeChunks.v; enc_frame_hdr, enc_chunk, enc_frame, wf_frame, wf_chunk, set_ratio,
+   square_ratio, same_header_fields, inflate_ignores_tail, pal_after: Proofs/Neutral.v.
+   In the file-level theorems F is a byte string that parses as exactly j frames (the frames
+   before the one that is changed) and `rest` is everything after that frame. *)
+From Ase Require Import Model.Validate.
+From Ase Require Import Spec.EncodeChunks.
+From Ase Require Import Spec.Framing.
+From Ase Require Import Proofs.ITLemmas.
+From Ase Require Import Proofs.Neutral.
+From Ase Require Import Proofs.NeutralExamples.
+From Ase Require Import Model.Render.
+From Ase Require Import Proofs.Layers.
+From Ase Require Import Proofs.RenderFrame.
+
+(* ================= bytes after the last frame ================= *)
+
+Theorem C07_trailer :
+  forall (inflate : list Z -> Z -> zres) (bs : list Z) (f : file) (rest tail1 tail2 : list Z),
+    load_rest inflate bs = Ok (f, rest) ->
+    load inflate (firstn (length bs - length rest) bs ++ tail1)
+    = load inflate (firstn (length bs - length rest) bs ++ tail2).
+Proof. exact trailer_neutral. Qed.
+Print Assumptions C07_trailer.
+
+Theorem C07_trailer_exact :
+  forall (inflate : list Z -> Z -> zres) (bs : list Z) (f : file) (tail1 tail2 : list Z),
+    load_rest inflate bs = Ok (f, []) ->
+    load inflate (bs ++ tail1) = Ok f /\ load inflate (bs ++ tail2) = Ok f.
+Proof. exact trailer_neutral_exact. Qed.
+Print Assumptions C07_trailer_exact.
+
+(* ================= ignorable chunks: cel extra, mask, path ================= *)
+
+Theorem C07_ignorable_chunk :
+  forall (inflate : list Z -> Z -> zres) (fmt : pixfmt) (fid : Z) (p : pinfo) (ty : Z) (data : list Z),
+    ty = 8198 \/ ty = 8214 \/ ty = 8215 ->
+    process_chunk inflate fmt fid p (ty, data) = Ok p.
+Proof. exact process_ignorable. Qed.
+Print Assumptions C07_ignorable_chunk.
+
+(* anywhere in a frame's chunk list *)
+Theorem C07_ignorable_chunk_list :
+  forall (inflate : list Z -> Z -> zres) (fmt : pixfmt) (fid ty : Z) (data : list Z)
+         (pre post : list (Z * list Z)) (p : pinfo),
+    ty = 8198 \/ ty = 8214 \/ ty = 8215 ->
+    rfold (process_chunk inflate fmt fid) (pre ++ (ty, data) :: post) p
+    = rfold (process_chunk inflate fmt fid) (pre ++ post) p.
+Proof. exact ignorable_rfold. Qed.
+Print Assumptions C07_ignorable_chunk_list.
+
+(* in any frame of a file, at assembly level *)
+Theorem C07_ignorable_chunk_assemble :
+  forall (inflate : list Z -> Z -> zres) (fmt : pixfmt) (n d ty : Z) (data : list Z)
+         (fpre fpost : list rawframe) (dur : Z) (pre post : list rawchunk),
+    ty = 8198 \/ ty = 8214 \/ ty = 8215 ->
+    assemble inflate fmt n d (fpre ++ (dur, pre ++ (ty, data) :: post) :: fpost)
+    = assemble inflate fmt n d (fpre ++ (dur, pre ++ post) :: fpost).
+Proof. exact ignorable_assemble. Qed.
+Print Assumptions C07_ignorable_chunk_assemble.
+
+(* two byte strings whose framing differs by such a chunk load as the same sprite *)
+Theorem C07_ignorable_chunk_load :
+  forall (inflate : list Z -> Z -> zres) (bs1 bs2 : list Z) (rh : rawheader) (rest1 rest2 : list Z)
+         (ty : Z) (data : list Z) (fpre fpost : list rawframe) (dur : Z) (pre post : list rawchunk),
+    ty = 8198 \/ ty = 8214 \/ ty = 8215 ->
+    run framing bs1 = Ok ((rh, fpre ++ (dur, pre ++ (ty, data) :: post) :: fpost), rest1) ->
+    run framing bs2 = Ok ((rh, fpre ++ (dur, pre ++ post) :: fpost), rest2) ->
+    forall f : file, load inflate bs1 = Ok f <-> load inflate bs2 = Ok f.
+Proof. exact ignorable_load. Qed.
+Print Assumptions C07_ignorable_chunk_load.
+
+(* on the bytes: the frame with the chunk (its header announcing one chunk more and a larger
+   size) and the frame without it *)
+Theorem C07_ignorable_chunk_file :
+  forall (inflate : list Z -> Z -> zres) (h : hfields) (a b c d g r : list Z) (fmt : pixfmt)
+         (F : list Z) (j : nat) (st : pinfo * Z) (dur nb1 old1 : Z) (rsv1 : list Z) (new1 nb2 old2 : Z)
+         (rsv2 : list Z) (new2 ty : Z) (data : list Z) (pre post : list rawchunk) (rest : list Z),
+    wf_header h -> wf_header_junk a b c d g r -> header_fmt h = Some fmt ->
+    run_times j (parse_frames_step inflate fmt) (pinfo_new (hf_frames h) (hf_default_time h), 0) F = Ok (st, []) ->
+    (j < Z.to_nat (hf_frames h))%nat ->
+    wf_frame nb1 old1 new1 rsv1 (pre ++ (ty, data) :: post) -> wf_frame nb2 old2 new2 rsv2 (pre ++ post) ->
+    ty = 8198 \/ ty = 8214 \/ ty = 8215 ->
+    load inflate (enc_header h a b c d g r ++ F ++ enc_frame nb1 old1 dur rsv1 new1 (pre ++ (ty, data) :: post) ++ rest)
+    = load inflate (enc_header h a b c d g r ++ F ++ enc_frame nb2 old2 dur rsv2 new2 (pre ++ post) ++ rest).
+Proof. exact ignorable_chunk_file. Qed.
+Print Assumptions C07_ignorable_chunk_file.
+
+(* enc_frame is what the framing layer reads back *)
+Theorem C07_frame_framing :
+  forall (nb old dur : Z) (rsv : list Z) (new : Z) (chunks : list rawchunk) (t : list Z),
+    wf_frame nb old new rsv chunks ->
+    run frame_chunks (enc_frame nb old dur rsv new chunks ++ t) = Ok ((dur, chunks), t).
+Proof. exact frame_chunks_enc_frame. Qed.
+Print Assumptions C07_frame_framing.
+
+(* ================= colour profile: none or sRGB ================= *)
+
+Theorem C07_color_profile_chunk :
+  forall (inflate : list Z -> Z -> zres) (ty flags : Z) (gamma rsv t : list Z),
+    wf_color_profile ty flags -> junk 4 gamma -> junk 8 rsv ->
+    forall (fmt : pixfmt) (fid : Z) (p : pinfo),
+      process_chunk inflate fmt fid p (8199, enc_color_profile ty flags gamma rsv ++ t) = Ok p.
+Proof. exact color_profile_neutral. Qed.
+Print Assumptions C07_color_profile_chunk.
+
+Theorem C07_color_profile_chunk_list :
+  forall (inflate : list Z -> Z -> zres) (fmt : pixfmt) (fid ty flags : Z) (gamma rsv t : list Z)
+         (pre post : list (Z * list Z)) (p : pinfo),
+    wf_color_profile ty flags -> junk 4 gamma -> junk 8 rsv ->
+    rfold (process_chunk inflate fmt fid) (pre ++ (8199, enc_color_profile ty flags gamma rsv ++ t) :: post) p
+    = rfold (process_chunk inflate fmt fid) (pre ++ post) p.
+Proof. exact color_profile_rfold. Qed.
+Print Assumptions C07_color_profile_chunk_list.
+
+Theorem C07_color_profile_chunk_assemble :
+  forall (inflate : list Z -> Z -> zres) (fmt : pixfmt) (n d ty flags : Z) (gamma rsv t : list Z)
+         (fpre fpost : list rawframe) (dur : Z) (pre post : list rawchunk),
+    wf_color_profile ty flags -> junk 4 gamma -> junk 8 rsv ->
+    assemble inflate fmt n d (fpre ++ (dur, pre ++ (8199, enc_color_profile ty flags gamma rsv ++ t) :: post) :: fpost)
+    = assemble inflate fmt n d (fpre ++ (dur, pre ++ post) :: fpost).
+Proof. exact color_profile_assemble. Qed.
+Print Assumptions C07_color_profile_chunk_assemble.
+
+Theorem C07_color_profile_chunk_file :
+  forall (inflate : list Z -> Z -> zres) (h : hfields) (a b c d g r : list Z) (fmt : pixfmt)
+         (F : list Z) (j : nat) (st : pinfo * Z) (dur nb1 old1 : Z) (rsv1 : list Z) (new1 nb2 old2 : Z)
+         (rsv2 : list Z) (new2 ty flags : Z) (gamma rsv t : list Z) (pre post : list rawchunk) (rest : list Z),
+    wf_header h -> wf_header_junk a b c d g r -> header_fmt h = Some fmt ->
+    run_times j (parse_frames_step inflate fmt) (pinfo_new (hf_frames h) (hf_default_time h), 0) F = Ok (st, []) ->
+    (j < Z.to_nat (hf_frames h))%nat ->
+    wf_frame nb1 old1 new1 rsv1 (pre ++ (8199, enc_color_profile ty flags gamma rsv ++ t) :: post) ->
+    wf_frame nb2 old2 new2 rsv2 (pre ++ post) ->
+    wf_color_profile ty flags -> junk 4 gamma -> junk 8 rsv ->
+    load inflate (enc_header h a b c d g r ++ F
+                  ++ enc_frame nb1 old1 dur rsv1 new1 (pre ++ (8199, enc_color_profile ty flags gamma rsv ++ t) :: post) ++ rest)
+    = load inflate (enc_header h a b c d g r ++ F ++ enc_frame nb2 old2 dur rsv2 new2 (pre ++ post) ++ rest).
+Proof. exact color_profile_chunk_file. Qed.
+Print Assumptions C07_color_profile_chunk_file.
+
+(* ================= bytes at the end of a chunk ================= *)
+
+(* every decoder that is a reader tree *)
+Theorem C07_chunk_tail :
+  forall (A : Type) (dec : IT A) (data : list Z) (a : A) (tail : list Z),
+    run_payload dec data = Ok a -> run_payload dec (data ++ tail) = Ok a.
+Proof. exact @run_payload_app. Qed.
+Print Assumptions C07_chunk_tail.
+
+(* every chunk kind that does not call the decompressor *)
+Theorem C07_chunk_tail_plain :
+  forall (inflate : list Z -> Z -> zres) (fmt : pixfmt) (fid : Z) (p : pinfo) (ty : Z) (data tail : list Z) (p' : pinfo),
+    ty <> 8197 -> ty <> 8227 ->
+    process_chunk inflate fmt fid p (ty, data) = Ok p' ->
+    process_chunk inflate fmt fid p (ty, data ++ tail) = Ok p'.
+Proof. exact process_chunk_tail_plain. Qed.
+Print Assumptions C07_chunk_tail_plain.
+
+(* raw and linked cels (cel_type_of reads the type field of the cel head) *)
+Theorem C07_chunk_tail_cel_uncompressed :
+  forall (inflate : list Z -> Z -> zres) (fmt : pixfmt) (fid : Z) (p : pinfo) (data tail : list Z) (ct : Z) (p' : pinfo),
+    cel_type_of data = Some ct -> ct <> 2 -> ct <> 3 ->
+    process_chunk inflate fmt fid p (8197, data) = Ok p' ->
+    process_chunk inflate fmt fid p (8197, data ++ tail) = Ok p'.
+Proof. exact process_cel_tail_uncompressed. Qed.
+Print Assumptions C07_chunk_tail_cel_uncompressed.
+
+(* every chunk kind, for a decompressor that ignores what follows the stream (a premise, not
+   an axiom; `inflate` is a parameter of the whole model) *)
+Theorem C07_chunk_tail_all :
+  forall (inflate : list Z -> Z -> zres) (fmt : pixfmt) (fid : Z) (p : pinfo) (ty : Z) (data tail : list Z) (p' : pinfo),
+    (forall (z t : list Z) (n : Z) (out : list Z), inflate z n = ZOk out -> inflate (z ++ t) n = ZOk out) ->
+    process_chunk inflate fmt fid p (ty, data) = Ok p' ->
+    process_chunk inflate fmt fid p (ty, data ++ tail) = Ok p'.
+Proof. exact process_chunk_tail. Qed.
+Print Assumptions C07_chunk_tail_all.
+
+Theorem C07_chunk_tail_cel :
+  forall (inflate : list Z -> Z -> zres) (fmt : pixfmt) (data tail : list Z) (c : cel rawpixels),
+    (forall (z t : list Z) (n : Z) (out : list Z), inflate z n = ZOk out -> inflate (z ++ t) n = ZOk out) ->
+    dec_cel inflate fmt data = Ok c -> dec_cel inflate fmt (data ++ tail) = Ok c.
+Proof. exact dec_cel_tail. Qed.
+Print Assumptions C07_chunk_tail_cel.
+
+Theorem C07_chunk_tail_tileset :
+  forall (inflate : list Z -> Z -> zres) (fmt : pixfmt) (data tail : list Z) (ts : tileset rawpixels),
+    (forall (z t : list Z) (n : Z) (out : list Z), inflate z n = ZOk out -> inflate (z ++ t) n = ZOk out) ->
+    dec_tileset inflate fmt data = Ok ts -> dec_tileset inflate fmt (data ++ tail) = Ok ts.
+Proof. exact dec_tileset_tail. Qed.
+Print Assumptions C07_chunk_tail_tileset.
+
+Theorem C07_chunk_tail_list :
+  forall (inflate : list Z -> Z -> zres) (fmt : pixfmt) (fid ty : Z) (data tail : list Z)
+         (pre post : list (Z * list Z)) (p p' : pinfo),
+    (forall (z t : list Z) (n : Z) (out : list Z), inflate z n = ZOk out -> inflate (z ++ t) n = ZOk out) ->
+    rfold (process_chunk inflate fmt fid) (pre ++ (ty, data) :: post) p = Ok p' ->
+    rfold (process_chunk inflate fmt fid) (pre ++ (ty, data ++ tail) :: post) p = Ok p'.
+Proof. exact chunk_tail_rfold. Qed.
+Print Assumptions C07_chunk_tail_list.
+
+Theorem C07_chunk_tail_assemble :
+  forall (inflate : list Z -> Z -> zres) (fmt : pixfmt) (n d ty : Z) (data tail : list Z)
+         (fpre fpost : list rawframe) (dur : Z) (pre post : list rawchunk) (p : pinfo),
+    (forall (z t : list Z) (n : Z) (out : list Z), inflate z n = ZOk out -> inflate (z ++ t) n = ZOk out) ->
+    assemble inflate fmt n d (fpre ++ (dur, pre ++ (ty, data) :: post) :: fpost) = Ok p ->
+    assemble inflate fmt n d (fpre ++ (dur, pre ++ (ty, data ++ tail) :: post) :: fpost) = Ok p.
+Proof. exact chunk_tail_assemble. Qed.
+Print Assumptions C07_chunk_tail_assemble.
+
+Theorem C07_chunk_tail_file :
+  forall (inflate : list Z -> Z -> zres) (h : hfields) (a b c d g r : list Z) (fmt : pixfmt)
+         (F : list Z) (j : nat) (st : pinfo * Z) (dur nb1 old1 : Z) (rsv1 : list Z) (new1 nb2 old2 : Z)
+         (rsv2 : list Z) (new2 ty : Z) (data tail : list Z) (pre post : list rawchunk) (rest : list Z) (f : file),
+    wf_header h -> wf_header_junk a b c d g r -> header_fmt h = Some fmt ->
+    run_times j (parse_frames_step inflate fmt) (pinfo_new (hf_frames h) (hf_default_time h), 0) F = Ok (st, []) ->
+    (j < Z.to_nat (hf_frames h))%nat ->
+    wf_frame nb1 old1 new1 rsv1 (pre ++ (ty, data) :: post) ->
+    wf_frame nb2 old2 new2 rsv2 (pre ++ (ty, data ++ tail) :: post) ->
+    (forall (z t : list Z) (n : Z) (out : list Z), inflate z n = ZOk out -> inflate (z ++ t) n = ZOk out) ->
+    load inflate (enc_header h a b c d g r ++ F ++ enc_frame nb1 old1 dur rsv1 new1 (pre ++ (ty, data) :: post) ++ rest) = Ok f ->
+    load inflate (enc_header h a b c d g r ++ F ++ enc_frame nb2 old2 dur rsv2 new2 (pre ++ (ty, data ++ tail) :: post) ++ rest) = Ok f.
+Proof. exact chunk_tail_file. Qed.
+Print Assumptions C07_chunk_tail_file.
+
+(* the premise can be met: a decompressor (two stream formats) that satisfies it *)
+Theorem C07_chunk_tail_premise_met :
+  forall (z t : list Z) (n : Z) (out : list Z), toy_inflate z n = ZOk out -> toy_inflate (z ++ t) n = ZOk out.
+Proof. exact toy_inflate_ignores_tail. Qed.
+Print Assumptions C07_chunk_tail_premise_met.
+
+(* ================= unused fields ================= *)
+
+(* layer: flag bits 7..15, default size, reserved bytes (and the chunk tail) *)
+Theorem C07_unused_layer :
+  forall (l : layer) (fw1 fw2 : Z) (d1 d2 r1 r2 t1 t2 : list Z),
+    wf_layer l fw1 -> wf_layer l fw2 -> junk 4 d1 -> junk 4 d2 -> junk 3 r1 -> junk 3 r2 ->
+    run_payload dec_layer (enc_layer l fw1 d1 r1 ++ t1) = run_payload dec_layer (enc_layer l fw2 d2 r2 ++ t2).
+Proof. exact layer_junk. Qed.
+Print Assumptions C07_unused_layer.
+
+Theorem C07_unused_layer_process :
+  forall (inflate : list Z -> Z -> zres) (fmt : pixfmt) (fid : Z) (p : pinfo)
+         (l : layer) (fw1 fw2 : Z) (d1 d2 r1 r2 t1 t2 : list Z),
+    wf_layer l fw1 -> wf_layer l fw2 -> junk 4 d1 -> junk 4 d2 -> junk 3 r1 -> junk 3 r2 ->
+    process_chunk inflate fmt fid p (8196, enc_layer l fw1 d1 r1 ++ t1)
+    = process_chunk inflate fmt fid p (8196, enc_layer l fw2 d2 r2 ++ t2).
+Proof. exact process_layer_junk. Qed.
+Print Assumptions C07_unused_layer_process.
+
+(* tags: chunk reserved bytes; per tag the reserved bytes and the colour *)
+Theorem C07_unused_tags :
+  forall (ts1 ts2 : list (tag * list Z)) (r1 r2 t1 t2 : list Z),
+    wf_tags ts1 -> wf_tags ts2 -> map fst ts1 = map fst ts2 -> junk 8 r1 -> junk 8 r2 ->
+    run_payload dec_tags (enc_tags ts1 r1 ++ t1) = run_payload dec_tags (enc_tags ts2 r2 ++ t2).
+Proof. exact tags_junk. Qed.
+Print Assumptions C07_unused_tags.
+
+Theorem C07_unused_tags_process :
+  forall (inflate : list Z -> Z -> zres) (fmt : pixfmt) (fid : Z) (p : pinfo)
+         (ts1 ts2 : list (tag * list Z)) (r1 r2 t1 t2 : list Z),
+    wf_tags ts1 -> wf_tags ts2 -> map fst ts1 = map fst ts2 -> junk 8 r1 -> junk 8 r2 ->
+    process_chunk inflate fmt fid p (8216, enc_tags ts1 r1 ++ t1)
+    = process_chunk inflate fmt fid p (8216, enc_tags ts2 r2 ++ t2).
+Proof. exact process_tags_junk. Qed.
+Print Assumptions C07_unused_tags_process.
+
+(* user data: flag bits 2..31 *)
+Theorem C07_unused_userdata :
+  forall (u : userdata) (f1 f2 : Z) (t1 t2 : list Z),
+    wf_userdata u f1 -> wf_userdata u f2 ->
+    run_payload dec_userdata (enc_userdata u f1 ++ t1) = run_payload dec_userdata (enc_userdata u f2 ++ t2).
+Proof. exact userdata_junk. Qed.
+Print Assumptions C07_unused_userdata.
+
+Theorem C07_unused_userdata_process :
+  forall (inflate : list Z -> Z -> zres) (fmt : pixfmt) (fid : Z) (p : pinfo) (u : userdata) (f1 f2 : Z) (t1 t2 : list Z),
+    wf_userdata u f1 -> wf_userdata u f2 ->
+    process_chunk inflate fmt fid p (8224, enc_userdata u f1 ++ t1)
+    = process_chunk inflate fmt fid p (8224, enc_userdata u f2 ++ t2).
+Proof. exact process_userdata_junk. Qed.
+Print Assumptions C07_unused_userdata_process.
+
+(* slice: flag bits 2..31, reserved bytes *)
+Theorem C07_unused_slice :
+  forall (s : slice) (f1 f2 : Z) (r1 r2 t1 t2 : list Z),
+    wf_slice s f1 -> wf_slice s f2 -> junk 4 r1 -> junk 4 r2 ->
+    run_payload dec_slice (enc_slice s f1 r1 ++ t1) = run_payload dec_slice (enc_slice s f2 r2 ++ t2).
+Proof. exact slice_junk. Qed.
+Print Assumptions C07_unused_slice.
+
+Theorem C07_unused_slice_process :
+  forall (inflate : list Z -> Z -> zres) (fmt : pixfmt) (fid : Z) (p : pinfo)
+         (s : slice) (f1 f2 : Z) (r1 r2 t1 t2 : list Z),
+    wf_slice s f1 -> wf_slice s f2 -> junk 4 r1 -> junk 4 r2 ->
+    process_chunk inflate fmt fid p (8226, enc_slice s f1 r1 ++ t1)
+    = process_chunk inflate fmt fid p (8226, enc_slice s f2 r2 ++ t2).
+Proof. exact process_slice_junk. Qed.
+Print Assumptions C07_unused_slice_process.
+
+(* palette: total-size field, reserved bytes, bits 1..15 of each entry's flags *)
+Theorem C07_unused_palette :
+  forall (total1 total2 first : Z) (e1 e2 : list (palentry * Z)) (r1 r2 t1 t2 : list Z),
+    wf_palette first e1 -> wf_palette first e2 -> map fst e1 = map fst e2 -> junk 8 r1 -> junk 8 r2 ->
+    run_payload dec_palette (enc_palette total1 first e1 r1 ++ t1)
+    = run_payload dec_palette (enc_palette total2 first e2 r2 ++ t2).
+Proof. exact palette_junk. Qed.
+Print Assumptions C07_unused_palette.
+
+Theorem C07_unused_palette_process :
+  forall (inflate : list Z -> Z -> zres) (fmt : pixfmt) (fid : Z) (p : pinfo)
+         (total1 total2 first : Z) (e1 e2 : list (palentry * Z)) (r1 r2 t1 t2 : list Z),
+    wf_palette first e1 -> wf_palette first e2 -> map fst e1 = map fst e2 -> junk 8 r1 -> junk 8 r2 ->
+    process_chunk inflate fmt fid p (8217, enc_palette total1 first e1 r1 ++ t1)
+    = process_chunk inflate fmt fid p (8217, enc_palette total2 first e2 r2 ++ t2).
+Proof. exact process_palette_junk. Qed.
+Print Assumptions C07_unused_palette_process.
+
+(* external files: reserved bytes of the chunk and of each entry *)
+Theorem C07_unused_external :
+  forall (es1 es2 : list ((Z * list Z) * list Z)) (r1 r2 t1 t2 : list Z),
+    wf_external es1 -> wf_external es2 -> map fst es1 = map fst es2 -> junk 8 r1 -> junk 8 r2 ->
+    run_payload dec_external (enc_external es1 r1 ++ t1) = run_payload dec_external (enc_external es2 r2 ++ t2).
+Proof. exact external_junk. Qed.
+Print Assumptions C07_unused_external.
+
+Theorem C07_unused_external_process :
+  forall (inflate : list Z -> Z -> zres) (fmt : pixfmt) (fid : Z) (p : pinfo)
+         (es1 es2 : list ((Z * list Z) * list Z)) (r1 r2 t1 t2 : list Z),
+    wf_external es1 -> wf_external es2 -> map fst es1 = map fst es2 -> junk 8 r1 -> junk 8 r2 ->
+    process_chunk inflate fmt fid p (8200, enc_external es1 r1 ++ t1)
+    = process_chunk inflate fmt fid p (8200, enc_external es2 r2 ++ t2).
+Proof. exact process_external_junk. Qed.
+Print Assumptions C07_unused_external_process.
+
+(* colour profile: none versus sRGB, flag bits 1..15, gamma, reserved bytes *)
+Theorem C07_unused_color_profile :
+  forall (ty1 ty2 f1 f2 : Z) (g1 g2 r1 r2 t1 t2 : list Z),
+    wf_color_profile ty1 f1 -> wf_color_profile ty2 f2 -> junk 4 g1 -> junk 4 g2 -> junk 8 r1 -> junk 8 r2 ->
+    run_payload dec_color_profile (enc_color_profile ty1 f1 g1 r1 ++ t1)
+    = run_payload dec_color_profile (enc_color_profile ty2 f2 g2 r2 ++ t2).
+Proof. exact color_profile_junk. Qed.
+Print Assumptions C07_unused_color_profile.
+
+(* cel head: the 7 reserved bytes, for every cel type and body *)
+Theorem C07_unused_cel :
+  forall (inflate : list Z -> Z -> zres) (fmt : pixfmt) (c : celcommon) (ct : Z) (r1 r2 body : list Z),
+    wf_celcommon c -> junk 7 r1 -> junk 7 r2 ->
+    dec_cel inflate fmt (enc_cel_hdr c ct r1 ++ body) = dec_cel inflate fmt (enc_cel_hdr c ct r2 ++ body).
+Proof. exact cel_hdr_junk. Qed.
+Print Assumptions C07_unused_cel.
+
+Theorem C07_unused_cel_process :
+  forall (inflate : list Z -> Z -> zres) (fmt : pixfmt) (fid : Z) (p : pinfo) (c : celcommon) (ct : Z) (r1 r2 body : list Z),
+    wf_celcommon c -> junk 7 r1 -> junk 7 r2 ->
+    process_chunk inflate fmt fid p (8197, enc_cel_hdr c ct r1 ++ body)
+    = process_chunk inflate fmt fid p (8197, enc_cel_hdr c ct r2 ++ body).
+Proof. exact process_cel_hdr_junk. Qed.
+Print Assumptions C07_unused_cel_process.
+
+(* tilemap cel: the three flip masks and the reserved bytes *)
+Theorem C07_unused_tilemap :
+  forall (inflate : list Z -> Z -> zres) (fmt : pixfmt) (c : celcommon) (ra1 ra2 : list Z) (w h idmask : Z)
+         (m1 m2 r1 r2 z : list Z),
+    wf_celcommon c -> junk 7 ra1 -> junk 7 ra2 -> junk 12 m1 -> junk 12 m2 -> junk 10 r1 -> junk 10 r2 ->
+    dec_cel inflate fmt (enc_cel_hdr c 3 ra1 ++ enc_tilemap_hdr w h idmask m1 r1 ++ z)
+    = dec_cel inflate fmt (enc_cel_hdr c 3 ra2 ++ enc_tilemap_hdr w h idmask m2 r2 ++ z).
+Proof. exact cel_tilemap_junk. Qed.
+Print Assumptions C07_unused_tilemap.
+
+(* tileset: flag bits 3..31, reserved bytes, the compressed-length field *)
+Theorem C07_unused_tileset :
+  forall (inflate : list Z -> Z -> zres) (fmt : pixfmt) (ts : tileset rawpixels) (f1 f2 : Z) (r1 r2 c1 c2 z : list Z),
+    wf_tileset_hdr ts f1 -> wf_tileset_hdr ts f2 -> bit f1 2 = bit f2 2 ->
+    junk 14 r1 -> junk 14 r2 -> junk 4 c1 -> junk 4 c2 ->
+    dec_tileset inflate fmt (enc_tileset_hdr ts f1 r1 c1 ++ z)
+    = dec_tileset inflate fmt (enc_tileset_hdr ts f2 r2 c2 ++ z).
+Proof. exact tileset_junk. Qed.
+Print Assumptions C07_unused_tileset.
+
+Theorem C07_unused_tileset_process :
+  forall (inflate : list Z -> Z -> zres) (fmt : pixfmt) (fid : Z) (p : pinfo)
+         (ts : tileset rawpixels) (f1 f2 : Z) (r1 r2 c1 c2 z : list Z),
+    wf_tileset_hdr ts f1 -> wf_tileset_hdr ts f2 -> bit f1 2 = bit f2 2 ->
+    junk 14 r1 -> junk 14 r2 -> junk 4 c1 -> junk 4 c2 ->
+    process_chunk inflate fmt fid p (8227, enc_tileset_hdr ts f1 r1 c1 ++ z)
+    = process_chunk inflate fmt fid p (8227, enc_tileset_hdr ts f2 r2 c2 ++ z).
+Proof. exact process_tileset_junk. Qed.
+Print Assumptions C07_unused_tileset_process.
+
+(* file header: file size, flags, deprecated fields, ignored bytes and colour count, grid,
+   reserved bytes, and the pixel ratio among the accepted ones; same_header_fields = the six
+   used fields agree *)
+Theorem C07_unused_header :
+  forall (inflate : list Z -> Z -> zres) (h1 h2 : hfields) (a1 b1 c1 d1 g1 r1 a2 b2 c2 d2 g2 r2 t : list Z),
+    wf_header h1 -> wf_header h2 -> same_header_fields h1 h2 ->
+    wf_header_junk a1 b1 c1 d1 g1 r1 -> wf_header_junk a2 b2 c2 d2 g2 r2 ->
+    load inflate (enc_header h1 a1 b1 c1 d1 g1 r1 ++ t) = load inflate (enc_header h2 a2 b2 c2 d2 g2 r2 ++ t).
+Proof. exact header_junk_load. Qed.
+Print Assumptions C07_unused_header.
+
+Theorem C07_unused_header_parse :
+  forall (inflate : list Z -> Z -> zres) (h1 h2 : hfields) (a1 b1 c1 d1 g1 r1 a2 b2 c2 d2 g2 r2 t : list Z),
+    wf_header h1 -> wf_header h2 -> same_header_fields h1 h2 ->
+    wf_header_junk a1 b1 c1 d1 g1 r1 -> wf_header_junk a2 b2 c2 d2 g2 r2 ->
+    run (parse_file inflate) (enc_header h1 a1 b1 c1 d1 g1 r1 ++ t)
+    = run (parse_file inflate) (enc_header h2 a2 b2 c2 d2 g2 r2 ++ t).
+Proof. exact header_junk_run. Qed.
+Print Assumptions C07_unused_header_parse.
+
+(* one chunk replaced by a chunk with the same effect, on the bytes of a file: lifts every
+   `_process` theorem above (and C07_raw_vs_zlib_process below) to `load` *)
+Theorem C07_equivalent_chunk_file :
+  forall (inflate : list Z -> Z -> zres) (h : hfields) (a b c d g r : list Z) (fmt : pixfmt)
+         (F : list Z) (j : nat) (st : pinfo * Z) (dur nb1 old1 : Z) (rsv1 : list Z) (new1 nb2 old2 : Z)
+         (rsv2 : list Z) (new2 : Z) (ch1 ch2 : rawchunk) (pre post : list rawchunk) (rest : list Z),
+    wf_header h -> wf_header_junk a b c d g r -> header_fmt h = Some fmt ->
+    run_times j (parse_frames_step inflate fmt) (pinfo_new (hf_frames h) (hf_default_time h), 0) F = Ok (st, []) ->
+    (j < Z.to_nat (hf_frames h))%nat ->
+    wf_frame nb1 old1 new1 rsv1 (pre ++ ch1 :: post) -> wf_frame nb2 old2 new2 rsv2 (pre ++ ch2 :: post) ->
+    (forall (fid : Z) (p : pinfo), process_chunk inflate fmt fid p ch1 = process_chunk inflate fmt fid p ch2) ->
+    load inflate (enc_header h a b c d g r ++ F ++ enc_frame nb1 old1 dur rsv1 new1 (pre ++ ch1 :: post) ++ rest)
+    = load inflate (enc_header h a b c d g r ++ F ++ enc_frame nb2 old2 dur rsv2 new2 (pre ++ ch2 :: post) ++ rest).
+Proof. exact equivalent_chunk_file. Qed.
+Print Assumptions C07_equivalent_chunk_file.
+
+Theorem C07_equivalent_chunk_assemble :
+  forall (inflate : list Z -> Z -> zres) (fmt : pixfmt) (n d : Z) (ch1 ch2 : rawchunk)
+         (fpre fpost : list rawframe) (dur : Z) (pre post : list rawchunk),
+    (forall (fid : Z) (p : pinfo), process_chunk inflate fmt fid p ch1 = process_chunk inflate fmt fid p ch2) ->
+    assemble inflate fmt n d (fpre ++ (dur, pre ++ ch1 :: post) :: fpost)
+    = assemble inflate fmt n d (fpre ++ (dur, pre ++ ch2 :: post) :: fpost).
+Proof. exact equivalent_assemble. Qed.
+Print Assumptions C07_equivalent_chunk_assemble.
+
+(* ================= pixel ratio ================= *)
+
+(* the header check passes exactly for a zero component or 1:1 *)
+Theorem C07_pixel_ratio_check :
+  forall pw ph : Z,
+    negb (pw =? 0) && negb (ph =? 0) && negb ((pw =? 1) && (ph =? 1)) = false
+    <-> pw = 0 \/ ph = 0 \/ (pw = 1 /\ ph = 1).
+Proof. exact ratio_check_iff. Qed.
+Print Assumptions C07_pixel_ratio_check.
+
+(* and nothing else depends on the two bytes: any two accepted ratios *)
+Theorem C07_pixel_ratio :
+  forall (inflate : list Z -> Z -> zres) (h : hfields) (pw1 ph1 pw2 ph2 : Z) (a b c d g r t : list Z),
+    wf_header h ->
+    is_byte pw1 /\ is_byte ph1 /\ (pw1 = 0 \/ ph1 = 0 \/ (pw1 = 1 /\ ph1 = 1)) ->
+    is_byte pw2 /\ is_byte ph2 /\ (pw2 = 0 \/ ph2 = 0 \/ (pw2 = 1 /\ ph2 = 1)) ->
+    wf_header_junk a b c d g r ->
+    load inflate (enc_header (set_ratio h pw1 ph1) a b c d g r ++ t)
+    = load inflate (enc_header (set_ratio h pw2 ph2) a b c d g r ++ t).
+Proof. exact pixel_ratio_load. Qed.
+Print Assumptions C07_pixel_ratio.
+
+(* ================= the two chunk-count fields ================= *)
+
+(* (old = n, new = 0) versus (old = anything, new = n), e.g. (n, n) and (65535, n); the two
+   reserved bytes of the frame header are free too *)
+Theorem C07_count_field_frame_chunks :
+  forall (nb dur n old : Z) (r1 r2 rest : list Z),
+    n <> 0 -> junk 2 r1 -> junk 2 r2 ->
+    run frame_chunks (enc_frame_hdr nb n dur r1 0 ++ rest)
+    = run frame_chunks (enc_frame_hdr nb old dur r2 n ++ rest).
+Proof. exact count_field_frame_chunks. Qed.
+Print Assumptions C07_count_field_frame_chunks.
+
+Theorem C07_count_field_parse_frame :
+  forall (inflate : list Z -> Z -> zres) (fmt : pixfmt) (p : pinfo) (fid nb dur n old : Z) (r1 r2 rest : list Z),
+    n <> 0 -> junk 2 r1 -> junk 2 r2 ->
+    run (parse_frame inflate fmt p fid) (enc_frame_hdr nb n dur r1 0 ++ rest)
+    = run (parse_frame inflate fmt p fid) (enc_frame_hdr nb old dur r2 n ++ rest).
+Proof. exact count_field_parse_frame. Qed.
+Print Assumptions C07_count_field_parse_frame.
+
+(* the number of chunks read is `if new = 0 then old else new` *)
+Theorem C07_count_field_rule :
+  forall (nb old dur : Z) (rsv : list Z) (new : Z) (rest : list Z),
+    junk 2 rsv ->
+    run frame_chunks (enc_frame_hdr nb old dur rsv new ++ rest)
+    = run (frame_body nb dur (if new =? 0 then old else new)) rest.
+Proof. exact frame_chunks_enc. Qed.
+Print Assumptions C07_count_field_rule.
+
+Theorem C07_count_field_load :
+  forall (inflate : list Z -> Z -> zres) (h : hfields) (a b c d g r : list Z) (fmt : pixfmt)
+         (F : list Z) (j : nat) (st : pinfo * Z) (nb dur n old : Z) (r1 r2 rest : list Z),
+    wf_header h -> wf_header_junk a b c d g r -> header_fmt h = Some fmt ->
+    run_times j (parse_frames_step inflate fmt) (pinfo_new (hf_frames h) (hf_default_time h), 0) F = Ok (st, []) ->
+    (j < Z.to_nat (hf_frames h))%nat ->
+    n <> 0 -> junk 2 r1 -> junk 2 r2 ->
+    load inflate (enc_header h a b c d g r ++ F ++ enc_frame_hdr nb n dur r1 0 ++ rest)
+    = load inflate (enc_header h a b c d g r ++ F ++ enc_frame_hdr nb old dur r2 n ++ rest).
+Proof. exact count_field_load. Qed.
+Print Assumptions C07_count_field_load.
+
+(* ================= raw versus compressed ================= *)
+
+(* nothing is assumed of the stream z but what it inflates to, hence independent of the
+   compression level *)
+Theorem C07_raw_vs_zlib :
+  forall (inflate : list Z -> Z -> zres) (fmt : pixfmt) (c : celcommon) (r1 r2 : list Z) (w h : Z)
+         (raw z t1 t2 : list Z),
+    wf_celcommon c -> junk 7 r1 -> junk 7 r2 ->
+    zlen raw = bytes_per_pixel fmt * (w * h) ->
+    inflate (z ++ t2) (bytes_per_pixel fmt * (w * h) + 1) = ZOk raw ->
+    dec_cel inflate fmt (enc_cel_raw c r1 w h raw ++ t1) = dec_cel inflate fmt (enc_cel_zimage c r2 w h z ++ t2).
+Proof. exact raw_vs_zlib. Qed.
+Print Assumptions C07_raw_vs_zlib.
+
+Theorem C07_raw_vs_zlib_process :
+  forall (inflate : list Z -> Z -> zres) (fmt : pixfmt) (fid : Z) (p : pinfo) (c : celcommon) (r1 r2 : list Z) (w h : Z)
+         (raw z t1 t2 : list Z),
+    wf_celcommon c -> junk 7 r1 -> junk 7 r2 ->
+    zlen raw = bytes_per_pixel fmt * (w * h) ->
+    inflate (z ++ t2) (bytes_per_pixel fmt * (w * h) + 1) = ZOk raw ->
+    process_chunk inflate fmt fid p (8197, enc_cel_raw c r1 w h raw ++ t1)
+    = process_chunk inflate fmt fid p (8197, enc_cel_zimage c r2 w h z ++ t2).
+Proof. exact process_raw_vs_zlib. Qed.
+Print Assumptions C07_raw_vs_zlib_process.
+
+(* two streams with the same decompressed content: image cel, tilemap cel, tileset *)
+Theorem C07_zlib_stream_cel :
+  forall (inflate : list Z -> Z -> zres) (fmt : pixfmt) (c : celcommon) (r1 r2 : list Z) (w h : Z) (z1 z2 t1 t2 : list Z),
+    wf_celcommon c -> junk 7 r1 -> junk 7 r2 ->
+    inflate (z1 ++ t1) (bytes_per_pixel fmt * (w * h) + 1) = inflate (z2 ++ t2) (bytes_per_pixel fmt * (w * h) + 1) ->
+    dec_cel inflate fmt (enc_cel_zimage c r1 w h z1 ++ t1) = dec_cel inflate fmt (enc_cel_zimage c r2 w h z2 ++ t2).
+Proof. exact zlib_stream_cel. Qed.
+Print Assumptions C07_zlib_stream_cel.
+
+Theorem C07_zlib_stream_tilemap :
+  forall (inflate : list Z -> Z -> zres) (fmt : pixfmt) (c : celcommon) (ra1 ra2 : list Z) (w h idmask : Z)
+         (m1 m2 r1 r2 z1 z2 : list Z),
+    wf_celcommon c -> junk 7 ra1 -> junk 7 ra2 -> junk 12 m1 -> junk 12 m2 -> junk 10 r1 -> junk 10 r2 ->
+    inflate z1 (4 * (w * h) + 1) = inflate z2 (4 * (w * h) + 1) ->
+    dec_cel inflate fmt (enc_cel_hdr c 3 ra1 ++ enc_tilemap_hdr w h idmask m1 r1 ++ z1)
+    = dec_cel inflate fmt (enc_cel_hdr c 3 ra2 ++ enc_tilemap_hdr w h idmask m2 r2 ++ z2).
+Proof. exact zlib_stream_tilemap. Qed.
+Print Assumptions C07_zlib_stream_tilemap.
+
+Theorem C07_zlib_stream_tileset :
+  forall (inflate : list Z -> Z -> zres) (fmt : pixfmt) (ts : tileset rawpixels) (f1 f2 : Z) (r1 r2 c1 c2 z1 z2 : list Z),
+    wf_tileset_hdr ts f1 -> wf_tileset_hdr ts f2 -> bit f1 2 = bit f2 2 ->
+    junk 14 r1 -> junk 14 r2 -> junk 4 c1 -> junk 4 c2 ->
+    inflate z1 (bytes_per_pixel fmt * (ts_count ts * ts_h ts * ts_w ts) + 1)
+    = inflate z2 (bytes_per_pixel fmt * (ts_count ts * ts_h ts * ts_w ts) + 1) ->
+    dec_tileset inflate fmt (enc_tileset_hdr ts f1 r1 c1 ++ z1)
+    = dec_tileset inflate fmt (enc_tileset_hdr ts f2 r2 c2 ++ z2).
+Proof. exact zlib_stream_tileset. Qed.
+Print Assumptions C07_zlib_stream_tileset.
+
+(* ================= a legacy palette beside a new-format palette ================= *)
+
+(* new then legacy: compared with the new chunk alone only the user-data context differs
+   (it is not part of the loaded sprite) *)
+Theorem C07_legacy_palette_after :
+  forall (inflate : list Z -> Z -> zres) (fmt : pixfmt) (fid : Z) (p : pinfo) (dnew dold : list Z) (ty : Z) (pal : palette),
+    ty = 4 \/ ty = 17 -> run_payload dec_palette dnew = Ok pal ->
+    rfold (process_chunk inflate fmt fid) [(8217, dnew)] p = Ok (with_palette p (Some pal)) /\
+    rfold (process_chunk inflate fmt fid) [(8217, dnew); (ty, dold)] p
+    = Ok (with_ctx (with_palette p (Some pal)) (Some UOldPalette)).
+Proof. exact legacy_after_new. Qed.
+Print Assumptions C07_legacy_palette_after.
+
+(* legacy then new: the same state as in the other order *)
+Theorem C07_legacy_palette_before :
+  forall (inflate : list Z -> Z -> zres) (fmt : pixfmt) (fid : Z) (p : pinfo) (dnew dold : list Z) (ty : Z) (pal : palette)
+         (p' : pinfo),
+    ty = 4 \/ ty = 17 -> run_payload dec_palette dnew = Ok pal ->
+    rfold (process_chunk inflate fmt fid) [(ty, dold); (8217, dnew)] p = Ok p' ->
+    p' = with_ctx (with_palette p (Some pal)) (Some UOldPalette).
+Proof. exact legacy_before_new. Qed.
+Print Assumptions C07_legacy_palette_before.
+
+(* general position: among chunks that include a new-format palette chunk, a legacy palette
+   chunk more or less, anywhere, does not change the resulting palette *)
+Theorem C07_legacy_palette :
+  forall (inflate : list Z -> Z -> zres) (fmt : pixfmt) (fid : Z) (p : pinfo) (ty : Z) (dold dnew : list Z)
+         (pre post : list rawchunk) (p1 p2 : pinfo),
+    ty = 4 \/ ty = 17 ->
+    In (8217, dnew) pre \/ In (8217, dnew) post ->
+    rfold (process_chunk inflate fmt fid) (pre ++ (ty, dold) :: post) p = Ok p1 ->
+    rfold (process_chunk inflate fmt fid) (pre ++ post) p = Ok p2 ->
+    pi_palette p1 = pi_palette p2.
+Proof. exact legacy_palette_anywhere. Qed.
+Print Assumptions C07_legacy_palette.
+
+(* ================= order of cel chunks ================= *)
+
+Theorem C07_cel_order :
+  forall (t : celtable rawpixels) (n f1 : Z) (c1 : cel rawpixels) (f2 : Z) (c2 : cel rawpixels)
+         (t1 t12 : celtable rawpixels),
+    0 <= f1 -> 0 <= f2 -> (f1, cc_layer (c_data c1)) <> (f2, cc_layer (c_data c2)) ->
+    table_add_cel t n f1 c1 = Ok t1 -> table_add_cel t1 n f2 c2 = Ok t12 ->
+    exists t2 t21, table_add_cel t n f2 c2 = Ok t2 /\ table_add_cel t2 n f1 c1 = Ok t21 /\
+      (forall fr, get_row t12 fr = get_row t21 fr) /\
+      (forall nf fr l, table_cel t12 nf fr l = table_cel t21 nf fr l).
+Proof. exact table_add_cel_comm. Qed.
+Print Assumptions C07_cel_order.
+
+Theorem C07_cel_order_image :
+  forall (f : file) (t' : celtable pixels) (fr : Z),
+    (forall fr, get_row t' fr = get_row (f_cels f) fr) ->
+    frame_image (Layers.with_cels f t') fr = frame_image f fr.
+Proof. exact frame_image_rows. Qed.
+Print Assumptions C07_cel_order_image.
+
+(* two cel chunks of different layers swapped in a frame: accepted alike, same rows in the
+   cel table, every other component equal except the user-data context *)
+Theorem C07_cel_order_chunks :
+  forall (inflate : list Z -> Z -> zres) (fmt : pixfmt) (fid : Z) (p : pinfo) (d1 d2 : list Z)
+         (c1 c2 : cel rawpixels) (p12 : pinfo),
+    0 <= fid ->
+    dec_cel inflate fmt d1 = Ok c1 -> dec_cel inflate fmt d2 = Ok c2 ->
+    cc_layer (c_data c1) <> cc_layer (c_data c2) ->
+    rfold (process_chunk inflate fmt fid) [(8197, d1); (8197, d2)] p = Ok p12 ->
+    exists p21,
+      rfold (process_chunk inflate fmt fid) [(8197, d2); (8197, d1)] p = Ok p21 /\
+      (forall fr, get_row (pi_cels p12) fr = get_row (pi_cels p21) fr) /\
+      Parse.with_ctx (Parse.with_cels p12 zempty) None = Parse.with_ctx (Parse.with_cels p21 zempty) None.
+Proof. exact cel_order_chunks. Qed.
+Print Assumptions C07_cel_order_chunks.
